@@ -183,10 +183,10 @@ class TaskSpec(native_v1_specs.Spec):
             )
 
             for idx, item in enumerate(items):
-                if item_keys and (isinstance(item, tuple) or isinstance(item, list)):
-                    item = dict(zip(item_keys, list(item)))
-                elif item_keys and len(item_keys) == 1:
+                if item_keys and len(item_keys) == 1:
                     item = {item_keys[0]: item}
+                elif item_keys and (isinstance(item, tuple) or isinstance(item, list)):
+                    item = dict(zip(item_keys, list(item)))
 
                 item_ctx_value = ctx_util.set_current_item(in_ctx, item)
 
